@@ -117,6 +117,10 @@ def summarise(prop, tier, seed, rep):
     undecided = {}
     for k, lst in by_clause.items():
         st = [verify.status(o) for o in lst]
+        if lst and lst[0].kind == 'subset':
+            if any(x != 'proved' for x in st):
+                rep['structure_errors'].append('%s: a path leaves the accepted subset (%s)' % (lst[0].func, lst[0].clause))
+            continue
         if 'failed' in st:
             failed[k] = [o for o in lst if verify.status(o) == 'failed']
         elif 'failed-unconfirmed' in st:
